@@ -17,9 +17,9 @@ namespace {
 // holds 0xA5 bytes (a recycled pool slot). A hook that relies on zeroed storage starts with garbage links.
 struct Node {
 	int key, serial;
-	bool in;
+	bool in; int last_tree;
 	frg::rbtree_hook hook;
-	Node() { key = 0; serial = 0; in = false; }
+	Node() { key = 0; serial = 0; in = false; last_tree = 0; }
 };
 // A comparator with state (it dereferences a pointer), handed to the tree as a temporary: the tree has to keep a copy.
 int g_bias = 0;
@@ -232,45 +232,51 @@ void run_order(Ctx &c) {
 	Node *pool = (Node *)c.raw(sizeof(Node) * POOL);
 	memset((void *)pool, 0xA5, sizeof(Node) * POOL);
 	for(int i = 0; i < POOL; i++) { new (&pool[i]) Node; pool[i].serial = i; }
-	OTree *tree = c.make<OTree>();
-	std::vector<Node *> ref;
-	Checker<OTree> ck{c, *tree, ref, {}};
+	// One tree, or two trees of the same type that hand elements to each other (an element removed from one is inserted into the other:
+	// run queues, LRU lists). Each element is in at most one tree at a time; whatever a tree remembers about an element that left it
+	// must not matter.
+	OTree *tree[2] = {c.make<OTree>(), c.make<OTree>()};
+	std::vector<Node *> ref[2];
+	Checker<OTree> ck[2] = {{c, *tree[0], ref[0], {}}, {c, *tree[1], ref[1], {}}};
 	bool rm_two = false, rm_big = false;
 	int next_free = 0; std::vector<Node *> free_list;
-	unsigned nops = 1 + t.pick(50);
+	uint32_t r0 = t.next();
+	unsigned nops = 1 + r0 % 50; bool two = (r0 / 50) % 4 == 3;
 	if(t.pick(5) == 0) nops += t.pick(400);
-	c.op("order tree");
+	c.op(two ? "two order trees" : "order tree");
+	if(two) { c.tag("two-order-trees"); nops += 20; }
 	for(unsigned i = 0; i < nops && !t.done(); i++) {
-		unsigned op = t.pick(8);
-		if(op < 5 || ref.empty()) {
+		uint32_t ro = t.next(); unsigned op = ro % 8; int w = two ? (int)((ro / 8) % 2) : 0;
+		if(op < 5 || ref[w].empty()) {
 			Node *n;
-			if(!free_list.empty() && t.pick(3) == 0) { n = free_list.back(); free_list.pop_back(); c.tag("reinsert-removed-node"); }
+			if(!free_list.empty() && (t.pick(3) == 0 || (two && t.pick(2)))) { size_t at = two ? t.pick(free_list.size()) : free_list.size() - 1; n = free_list[at]; free_list.erase(free_list.begin() + at); c.tag("reinsert-removed-node"); if(two && n->last_tree != w) c.tag("element-moved-to-the-other-tree"); }
 			else if(next_free < POOL) n = &pool[next_free++]; else continue;
-			size_t pos = t.pick(4) == 0 ? ref.size() : t.pick(ref.size() + 1);
-			Node *before = pos == ref.size() ? nullptr : ref[pos];
-			c.op("insert(before %s%d, #%d)", before ? "#" : "end ", before ? before->serial : 0, n->serial);
-			tree->insert(before, n);
-			ref.insert(ref.begin() + pos, n);
+			size_t pos = t.pick(4) == 0 ? ref[w].size() : t.pick(ref[w].size() + 1);
+			Node *before = pos == ref[w].size() ? nullptr : ref[w][pos];
+			c.op("%sinsert(before %s%d, #%d)", two ? (w ? "B." : "A.") : "", before ? "#" : "end ", before ? before->serial : 0, n->serial);
+			tree[w]->insert(before, n); n->last_tree = w;
+			ref[w].insert(ref[w].begin() + pos, n);
 			if(before) c.tag("order-insert-before"); else c.tag("order-insert-last");
-			ck.check("insert(before, x)");
+			ck[w].check("insert(before, x)");
+			if(two) ck[1 - w].check("insert into the other tree");
 		} else {
-			size_t idx = t.pick(ref.size()); Node *x = ref[idx];
-			c.op("remove(#%d)", x->serial);
+			size_t idx = t.pick(ref[w].size()); Node *x = ref[w][idx];
+			c.op("%sremove(#%d)", two ? (w ? "B." : "A.") : "", x->serial);
 			if(OTree::get_left(x) && OTree::get_right(x)) rm_two = true;
-			if(ref.size() >= 4) rm_big = true;
-			ck.classify_remove(x);
-			tree->remove(x);
-			ref.erase(ref.begin() + idx);
-			ck.removed(x);
+			if(ref[w].size() >= 4) rm_big = true;
+			ck[w].classify_remove(x);
+			tree[w]->remove(x);
+			ref[w].erase(ref[w].begin() + idx);
+			ck[w].removed(x);
 			free_list.push_back(x);
-			ck.check("remove");
+			ck[w].check("remove");
+			if(two) ck[1 - w].check("remove from the other tree");
 		}
 	}
 	c.nontrivial = rm_two && rm_big;
 	c.tag("order");
 }
 } // namespace
-
 // a short history on a default-constructed tree with the aggregate comparator: the walk must be in the order of FlipLess{} (ascending keys,
 // equal keys in insertion order)
 void run_default_comparator(Ctx &c) {
